@@ -4,6 +4,7 @@ CONSTANTS
   MantSet <- StructuredMants
   FloatSet <- FloatDomR
   TableExps = {0, 1, 31, 62, 63}
+  EncTables = {"int", "top18"}
   SparseExps = {2, 3, 4, 5, 6, 7, 8, 9, 10, 11, 12, 13, 14, 15, 16, 17, 18, 19, 20, 21, 22, 23, 24, 25, 26, 27, 28, 29, 30, 32, 33, 34, 35, 36, 37, 38, 39, 40, 41, 42, 43, 44, 45, 46, 47, 48, 49, 50, 51, 52, 53, 54, 55, 56, 57, 58, 59, 60, 61}
-INVARIANTS DecValuePreserved DecTerminates DecClosedForm EncValuePreserved EncClosedForm ExactWhenRepresentable Monotone RowOK
+INVARIANTS EncRowOK EncLemmas DecValuePreserved DecTerminates DecClosedForm EncValuePreserved EncClosedForm ExactWhenRepresentable Monotone RowOK
 CHECK_DEADLOCK FALSE
